@@ -361,6 +361,61 @@ func checkC15(c *Ctx) {
 	// the transport's buffer is its own: it is only ever appended to and reset, never replaced by
 	// storage the caller (or anyone else) keeps a reference to
 	c.checkSetOnlyAtConstruction("O2 own-buffer", pk, "TUDPTransport", "writeBuf")
+	// the socket is written by Flush only: a write from anywhere else (Close "pushing out the tail", a
+	// write method sending early) puts bytes on the wire that no Flush asked for - the abandoned prefix of
+	// a refused message, or half a message
+	{
+		nW := 0
+		okW := true
+		for _, f := range c.funcsOfPkg(pk) {
+			f := f
+			instrsOf(f, func(in ssa.Instruction) {
+				call, ok := in.(ssa.CallInstruction)
+				if !ok {
+					return
+				}
+				nm := ""
+				if g := call.Common().StaticCallee(); g != nil {
+					nm = g.Name()
+				} else if call.Common().IsInvoke() {
+					nm = call.Common().Method.Name()
+				}
+				switch nm {
+				case "Write", "WriteTo", "WriteToUDP", "WriteMsgUDP":
+				default:
+					return
+				}
+				r := callRecv(call)
+				if r == nil {
+					return
+				}
+				isConn := false
+				for v, i := stripConv(r), 0; i < 4 && v != nil; i++ {
+					if fc, _ := loadedField(v); fc == fConn {
+						isConn = true
+						break
+					}
+					if fa, isFA := v.(*ssa.FieldAddr); isFA { // promoted method of the embedded connection
+						v = fa.X
+						continue
+					}
+					break
+				}
+				if !isConn {
+					return
+				}
+				nW++
+				if !(f.Name() == "Flush" && f.Signature.Recv() != nil) {
+					okW = false
+					c.bad("O3 socket-writer", c.fnKey(f), in.Pos(), "the socket is written outside Flush: bytes reach the wire that no Flush asked for (the abandoned prefix of a refused message, or part of a message)", c.describe(in))
+				}
+			})
+		}
+		if okW {
+			c.ok("O3 socket-writer", pk, token.NoPos, fmt.Sprintf("the socket is written at %d site(s), all in Flush", nW))
+		}
+		c.floor("O3 socket-writer", nW, 1)
+	}
 	c.checkMultiTransportCtor("O5 every-destination")
 
 	// ---- O6 Close ------------------------------------------------------------------------------------
